@@ -395,9 +395,16 @@ def canon_attr(base, name):
     return ("attr", base, name)
 
 
+# array reductions / scans that exist both as ndarray methods and as numpy functions with the array as first argument
+_ARRAY_METHODS = {"sum", "prod", "max", "min", "mean", "std", "var", "all", "any", "cumsum", "cumprod", "argmax", "argmin", "argsort", "ravel", "nonzero"}
+
+
 def canon_call(func, args, kws):
     func = strip_none(func)
     kwd = dict(kws)
+    if func[0] == "attr" and func[2] in _ARRAY_METHODS and func[1][0] not in ("global", "self", "func", "const", "dict") and not any(a[0] == "star" for a in args):
+        # X.sum(axis=k) is np.sum(X, axis=k)
+        return canon_call(G("numpy." + func[2]), (func[1],) + tuple(args), kws)
     if func in (G("numpy.stack"),) and args:
         items = _seq_items(args[0])
         ax = kwd.get("axis", args[1] if len(args) > 1 else None)
